@@ -169,6 +169,18 @@ let show_verdict = function
   | Bad -> "bad"
   | IOErr -> "io"
 
+(* The extracted functions recurse once per list element (length returns a unary
+   nat, app/map are not tail recursive); the rule-described payloads are up to a few
+   hundred KB long, so run with a large system stack: re-exec once under a raised
+   soft limit (stdin/stdout are inherited, nothing has been read yet). *)
+let () =
+  if Sys.getenv_opt "VERIF_C13_STACK" = None then begin
+    let cmd = Printf.sprintf
+        "ulimit -s 4000000 2>/dev/null || ulimit -s unlimited 2>/dev/null; VERIF_C13_STACK=1 exec %s"
+        (Filename.quote Sys.executable_name) in
+    exit (Sys.command cmd)
+  end
+
 let () =
   iter_lines (fun line ->
     match split_ws line with
@@ -211,6 +223,28 @@ let () =
          Printf.printf "%s PAY ENC %s DEC %s\n" id (hex_of_bytes enc)
            (match get_decoded decompress enc with
             | POk b -> "ok " ^ hex_of_bytes b | PErr -> "err" | PPanic -> "panic"))
+    | [id; "PAYR"; ct; rule; a; b; block] ->
+      (* payload given by a generator rule (same construction as payloadByRule in
+         harness/cmd/c13/payload.go), observed through length and a digest *)
+      let a = int_of_string a and b = int_of_string b in
+      let bytes_i =
+        match rule with
+        | "rep" -> List.init b (fun _ -> a land 255)
+        | "recpad" -> List.init 40 (fun i -> (a * 31 + i * 7) land 255) @ List.init b (fun _ -> 0)
+        | "runs" -> List.init b (fun i -> (a + i / 97) land 255)
+        | _ -> failwith ("unknown rule " ^ rule) in
+      let cmd = List.map n_of_int bytes_i and block = bytes_of_hex block in
+      let digest l = List.fold_left (fun s x -> (s * 31 + int_of_n x) mod 1000000007) 7 l in
+      let c = if ct = "1" then Snappy else NoCompression in
+      let compress _ = block in
+      let decompress x = if x = block then Some cmd else None in
+      (match get_encoded compress c cmd with
+       | None -> Printf.printf "%s PAYR panic\n" id
+       | Some enc ->
+         Printf.printf "%s PAYR ENCLEN %d ENCSUM %d DEC %s\n" id (List.length enc) (digest enc)
+           (match get_decoded decompress enc with
+            | POk out -> Printf.sprintf "ok %d %d" (List.length out) (digest out)
+            | PErr -> "err" | PPanic -> "panic"))
     | [id; "PAYDEC"; hx] ->
       Printf.printf "%s PAYDEC %s\n" id
         (match get_decoded (fun _ -> None) (bytes_of_hex hx) with
